@@ -406,6 +406,22 @@ func (c *c10) RunCase(r *fw.Rec, cs fw.Case) {
 
 func (c *c10) pair(r *fw.Rec, av, bv c10Val) {
 	a, b := av.mk(), bv.mk()
+	if !strings.Contains(av.desc, "error") {
+		// == must not depend on both operands being the same object: a == a agrees with a == (a value built the same way)
+		same, twin, ne := c.eval(0, a, a), c.eval(0, a, av.mk()), c.eval(1, a, a)
+		cv := func(x c10Res) string {
+			if x.err != "" || x.obj == nil {
+				return "error: " + x.err
+			}
+			return canon(x.obj)
+		}
+		r.Eval()
+		if cv(same) != cv(twin) || (same.err == "" && ne.err == "" && cv(same) == cv(ne)) {
+			r.Violate("eq:identity-dependent:"+av.kind, "a == a differs from a == (an identically built value), or a != a is not its negation",
+				map[string]interface{}{"a": av.desc, "a == a": cv(same), "a == twin": cv(twin), "a != a": cv(ne)})
+			return
+		}
+	}
 	r.Distinct(av.desc, bv.desc)
 	r.Inc("pair:" + av.kind + "/" + bv.kind)
 	detail := map[string]interface{}{"a": av.desc, "b": bv.desc}
